@@ -45,6 +45,7 @@ RULES = {
     "R4": "`for i in (a..b).rev() {` -> descending while loop",
     "R5": "consuming map iteration `for (k, v) in M {` -> `for (k__r, v__r) in M.iter() { let k = *k__r; let v = *v__r;` (M dead afterwards; value type made Copy in the assembled file, so the copy equals the moved value)",
     "R6": "`format!(..)` -> call of an overlay-declared stub `fmt__K(args)` (uninterpreted result unless stated and discharged by enumeration)",
+    "R25": "`for x in NAME {` / `for x in &E {` -> `for x in E.iter() {`",
     "R20": "`for b in S.bytes() {` -> `for b__r in S.as_bytes().iter() { let b = *b__r;` (definition of str::bytes)",
     "R7": "error-constructor expression `ParseError::X {..}` -> opaque `mk_err()`",
     "R15": "`E.and_then(|row| row.get(I)).unwrap_or(&0)` -> stub `get_or_zero(E, I)`",
@@ -158,6 +159,24 @@ def apply_common_rules(text, ed, rules, log, where):
                         log.append(("D2", where, t.text + "!"))
                         i = e + 1; continue
         i += 1
+    if "R11" in rules:
+        # `crate::a::b::X` / `super::X` -> `X` (single-file assembly has no module tree)
+        i = 0
+        while i < len(toks):
+            t = toks[i]
+            if t.kind == "ident" and t.text in ("crate", "super"):
+                j = i; lastid = None
+                while True:
+                    n1 = next_code(toks, j)
+                    if n1 is None or toks[n1].text != "::": break
+                    n2 = next_code(toks, n1)
+                    if n2 is None or toks[n2].kind != "ident": break
+                    lastid = n2; j = n2
+                if lastid is not None:
+                    ed.replace(t.start, toks[lastid].start, "")
+                    log.append(("R11", where, text[t.start:toks[lastid].end]))
+                    i = lastid + 1; continue
+            i += 1
     if "R7" in rules:
         # error-constructor expressions -> opaque mk_err(); error payloads never occur in a contract
         i = 0
@@ -785,6 +804,19 @@ def build_item(cur, log):
                     ed.insert(toks[last].end, ".iter()")
                 ed.insert(toks[lo_].end, f" let {v} = *{v}__r;")
                 log.append(("R1", where, text[toks[lk].start:toks[lo_].end]))
+    if "R25" in rules:
+        # `for x in NAME {` / `for x in &NAME.field {` (slice or &Vec) -> explicit `.iter()` (IntoIterator for &[T] / &Vec<T>)
+        for (lk, lo_, lc_) in loops:
+            if toks[lk].text != "for": continue
+            a1 = next_code(toks, lk); a2 = next_code(toks, a1)
+            if toks[a1].kind != "ident" or toks[a2].text != "in": continue
+            last = prev_code(toks, lo_)
+            expr = text[toks[a2].end:toks[last].end].strip()
+            if re.fullmatch(r"&?[\w\.]+", expr) and not expr.endswith(")"):
+                amp = next_code(toks, a2)
+                if toks[amp].text == "&": ed.replace(toks[amp].start, toks[amp].end, "")
+                ed.insert(toks[last].end, ".iter()")
+                log.append(("R25", where, text[toks[lk].start:toks[lo_].start].strip()))
     if "R20" in rules:
         for (lk, lo_, lc_) in loops:
             if toks[lk].text != "for": continue
@@ -1043,6 +1075,8 @@ def build_item(cur, log):
     fmeta["main_lines"] = t.count("\n") + 1
     if fmeta["has_requires"] and "novac" not in pos and "novac" not in opts:
         rendered_sig, _ = _render_sig_only(text, toks, k_name, k_body, opts, sig_txt, has_ret)
+        if "R11" in rules:
+            rendered_sig = re.sub(r"\b(?:crate|super)::(?:[a-z_][a-z0-9_]*::)*", "", rendered_sig)
         t += "\n" + rendered_sig
         offs += [None] * (len(rendered_sig) + 1)
         fmeta["has_vac"] = True
